@@ -107,7 +107,10 @@ let oracles_of (s : seqs) : oracles =
 let parse_alg = function "M" -> Myers | "P" -> Patience | "L" -> Lcs | _ -> failwith "alg"
 
 let deadline_of (o : int option) : deadline =
-  match o with None -> None | Some k -> Some (clock_at (nat_of_int k))
+  match o with
+  | None -> None
+  | Some k when k >= 100_000_000 -> Some (fun _ -> false) (* the never-expiring clock *)
+  | Some k -> Some (clock_at (nat_of_int k))
 
 let dbg = ref false
 
